@@ -59,7 +59,13 @@ pub fn run(ctx: &Ctx, rep: &mut Report) {
                 rep.finding("oracle", "conventions-disagree", &format!("{}({})", name, desc), &format!("list={} varargs={}", a, b), "c15.conventions");
             }
             let m = model_builtin(&mut model, name, &[list.clone()]);
-            if m != a {
+            // which of +0 / -0 `f64::min` / `f64::max` return on a tie depends on how the compiler lowers
+            // them (it differs between the debug and the optimised build of the same source): for min / max
+            // a zero result is compared up to its sign, as in `min_max_permutation_invariant`
+            let zero_sign = |s: &str| s.replace("(num 8000000000000000)", "(num 0000000000000000)");
+            if m != a && matches!(name, "min" | "max") && zero_sign(&m) == zero_sign(&a) {
+                rep.count("min-max-zero-sign");
+            } else if m != a {
                 rep.finding("model", "builtin", &format!("{}({})", name, desc), &format!("impl={} model={}", a, m), "c15.model.builtin");
             }
             let got = match num_of(&a) {
